@@ -13,3 +13,5 @@ package io
 //@ trusted func (o OffsetWriter) Len() (r int64)
 //@   ensures r == SpecLen[o] && r >= 0
 //@   modifies nothing
+
+//@ pure func (c *Int32Counter) Value() int32
